@@ -61,7 +61,7 @@ func verifyFunction(P *Program, S *Specs, fn *ssa.Function, ct *Contract, prop s
 		fr.params[p.Name()] = v
 		ex.typeAssume(v, p.Type(), "true", true)
 		if i == 0 && fn.Signature.Recv() != nil {
-			fr.params["recv"] = v
+			// (the receiver is addressed by its own name in function contracts; "recv" is reserved for library/interface specs)
 			if _, isPtr := p.Type().Underlying().(*types.Pointer); isPtr {
 				ex.emit("(assert (not (= %s 0)))", v.T) // receivers are non-nil (type invariant, stated assumption)
 			}
